@@ -252,6 +252,148 @@ def _replay_fill(model):
     return {"failed": False, "description": "60 random index sequences agree with the pair counts"}
 
 
+# ------------------------------------------------------------------------------------------------ TN93 (real code on symbolic reals)
+def run_tn93(chk):
+    """fast_distance._tn93_from_matrix, called exactly as TN93Pair calls it (the index / coordinate arguments are the
+    ones the real TN93Pair.__init__ computes for the DNA and the RNA moltype), on a fully symbolic 4x4 count matrix:
+    on every path that returns a distance, total, p and dist are the published Tamura-Nei (1993) quantities; a
+    distance is returned exactly when the three logarithm arguments are positive."""
+    import numpy
+
+    from cogent3.evolve import fast_distance as F
+    from pyvc import concolic as C
+    fn = "evolve.fast_distance._tn93_from_matrix"
+    chk.function(FD, "_tn93_from_matrix", "P")
+    chk.function(FD, "TN93Pair.__init__", "P")
+    for mt in ("dna", "rna"):
+        try:
+            calc = F.TN93Pair(mt)
+        except Exception as e:
+            chk.undecided.append(f"{fn}/cfg=({mt}): TN93Pair({mt!r}) cannot be built ({type(e).__name__}: {e})")
+            continue
+        args = list(calc._func_args)
+        # state order of the count matrix = order of the moltype's alphabet (index i <-> i-th canonical character)
+        states = "".join(str(c) for c in calc.moltype.alphabet).upper().replace("U", "T")
+        if any(int(calc.char_to_indices[ord(ch)]) != i for i, ch in enumerate(str(x) for x in calc.moltype.alphabet)):
+            chk.undecided.append(f"{fn}/cfg=({mt}): char_to_indices does not follow the alphabet order")
+            continue
+        if sorted(states) != list("ACGT"):
+            chk.undecided.append(f"{fn}/cfg=({mt}): unexpected state order {states!r}")
+            continue
+        ix = {c: states.index(c) for c in "ACGT"}
+        m = [[z3.Real(f"n_{states[i]}{states[j]}") for j in range(4)] for i in range(4)]
+        flat = [x for row in m for x in row]
+        n = z3.Sum(flat)
+        pi = [(z3.Sum(m[i]) + z3.Sum([m[k][i] for k in range(4)])) / (2 * n) for i in range(4)]
+        A, Cc, G, T = ix["A"], ix["C"], ix["G"], ix["T"]
+        piR, piY = pi[A] + pi[G], pi[Cc] + pi[T]
+        P1 = (m[A][G] + m[G][A]) / n
+        P2 = (m[Cc][T] + m[T][Cc]) / n
+        diffs = n - z3.Sum([m[i][i] for i in range(4)])
+        Q = diffs / n - P1 - P2
+        k1 = 2 * pi[A] * pi[G] / piR
+        k2 = 2 * pi[Cc] * pi[T] / piY
+        k3 = 2 * (piR * piY - pi[A] * pi[G] * piY / piR - pi[Cc] * pi[T] * piR / piY)
+        a1 = 1 - P1 / k1 - Q / (2 * piR)
+        a2 = 1 - P2 / k2 - Q / (2 * piY)
+        a3 = 1 - Q / (2 * piR * piY)
+        spec_dist = -k1 * C.LOG(a1) - k2 * C.LOG(a2) - k3 * C.LOG(a3)
+        # counts are non-negative, at least one column, every base present in at least one of the two sequences
+        pre = [x >= 0 for x in flat] + [n > 0] + [pi[i] * (2 * n) > 0 for i in range(4)]
+        pre_lin = [x >= 0 for x in flat] + [n > 0]
+
+        def call():
+            M = numpy.empty((4, 4), dtype=object)
+            for i in range(4):
+                for j in range(4):
+                    M[i, j] = C.Sym(m[i][j])
+            return F._tn93_from_matrix(M, *args)
+        try:
+            paths = C.explore(call, pre)
+        except Exception as e:
+            chk.undecided.append(f"{fn}/cfg=({mt}): the real code cannot be evaluated on symbolic reals ({type(e).__name__}: {e})")
+            continue
+        base = f"{fn}/cfg=({mt})"
+        from pyvc.algebra import identity_thunk
+        chk.obligation(f"{base}/cover", "cover", cover_thunk([x == 3 for x in flat]), function=fn)
+        n_dist = 0
+        X = [z3.Real(f"logarg{i}") for i in range(3)]          # stand for the three logarithm arguments in the branch logic
+        for k_, pth in enumerate(paths):
+            rep = _replay_tn93(mt)
+            if pth.outcome == "raise":
+                chk.obligation(f"{base}/noexcept/path={k_}", "noexcept",
+                               lambda v=pth.value: ("refuted", "concolic", 0.0, {}, f"the real code raises on a feasible path: {v}"),
+                               function=fn, key=f"C15/{fn}/noexcept", replayer=rep)
+                continue
+            r = pth.value
+            if r[2] is None:
+                continue                        # decided below, once the logarithm arguments are known
+            n_dist += 1
+            total, p_, dist = C.term(r[0]), C.term(r[1]), C.term(r[2])
+            args_code = pth.log_args
+            if len(args_code) != 3:
+                chk.obligation(f"{base}/post.three-logarithms/path={k_}", "post",
+                               lambda m_=len(args_code): ("refuted", "concolic", 0.0, {}, f"{m_} logarithms taken, the formula has 3"),
+                               function=fn, key=f"C15/{fn}/post", replayer=rep)
+                continue
+            # (1) rational-function identities: total, p, the three logarithm arguments
+            for nm, lhs, rhs in (("total", total, n), ("p", p_, diffs / n), ("log-argument-1", args_code[0], a1),
+                                 ("log-argument-2", args_code[1], a2), ("log-argument-3", args_code[2], a3)):
+                chk.obligation(f"{base}/post.{nm}-is-the-TN93-quantity/path={k_}", "post", identity_thunk(lhs, rhs, nm),
+                               function=fn, key=f"C15/{fn}/post", replayer=rep)
+            # (2) the distance: the code's expression over LOG(its arguments) equals the formula over LOG(a_i); with (1)
+            #     the applications coincide, so the identity is checked with the code's arguments written as a_i
+            dist_spec_args = z3.substitute(dist, *[(C.LOG(args_code[i]), C.LOG([a1, a2, a3][i])) for i in range(3)])
+            chk.obligation(f"{base}/post.dist-is-the-TN93-distance/path={k_}", "post", identity_thunk(dist_spec_args, spec_dist, "dist"),
+                           function=fn, key=f"C15/{fn}/post", replayer=rep)
+            # (3) branch logic, with the logarithm arguments abstracted: this path is taken only when all three are positive
+            pc_abs = [z3.substitute(c_, *[(args_code[i], X[i]) for i in range(3)]) for c_ in pth.pc]
+            chk.obligation(f"{base}/post.distance-only-when-defined/path={k_}", "post",
+                           smt_thunk(pre_lin + pc_abs, z3.And(X[0] > 0, X[1] > 0, X[2] > 0), 30, logic=None), function=fn,
+                           key=f"C15/{fn}/post", replayer=rep)
+            for k2, other in enumerate(paths):
+                if other.outcome == "return" and other.value[2] is None:
+                    # a path without a distance: some logarithm argument is not positive (or there is no column at all)
+                    pc2 = [z3.substitute(c_, *[(args_code[i], X[i]) for i in range(3)]) for c_ in other.pc]
+                    chk.obligation(f"{base}/post.no-distance-only-when-undefined/path={k2}", "post",
+                                   smt_thunk(pre_lin + pc2, z3.Not(z3.And(X[0] > 0, X[1] > 0, X[2] > 0)), 30, logic=None), function=fn,
+                                   key=f"C15/{fn}/post", replayer=rep)
+        if n_dist == 0:
+            chk.error(f"{base}: no path returns a distance")
+
+
+def _replay_tn93(mt):
+    def rep(model):
+        """native: TN93 distances of a calculator of this moltype against the formula in plain floats"""
+        import math
+        import warnings
+        warnings.filterwarnings("ignore")
+        from cogent3 import make_aligned_seqs
+        from cogent3.evolve.fast_distance import get_distance_calculator
+        s1 = "ACGTACGTACGGTTAACCGGATCGATCGTAGCTAGCTAGGATCCATGCA"
+        s2 = "ACGTACATACGGCTAACCAGATCGTTCGTAGTTAGCTAGGACCCATGTA"
+        if mt == "rna":
+            s1, s2 = s1.replace("T", "U"), s2.replace("T", "U")
+        aln = make_aligned_seqs({"a": s1, "b": s2}, moltype=mt)
+        c = get_distance_calculator("tn93", moltype=aln.moltype, alignment=aln)
+        c.run(show_progress=False)
+        got = c.get_pairwise_distances().to_dict()[("a", "b")]
+        t1, t2 = s1.replace("U", "T"), s2.replace("U", "T")
+        n = len(t1)
+        cnt = lambda x, y: sum(1 for p, q in zip(t1, t2) if (p, q) == (x, y))
+        pi = {b: (t1.count(b) + t2.count(b)) / (2 * n) for b in "ACGT"}
+        P1 = (cnt("A", "G") + cnt("G", "A")) / n
+        P2 = (cnt("C", "T") + cnt("T", "C")) / n
+        Q = sum(1 for p, q in zip(t1, t2) if p != q) / n - P1 - P2
+        piR, piY = pi["A"] + pi["G"], pi["C"] + pi["T"]
+        k1, k2 = 2 * pi["A"] * pi["G"] / piR, 2 * pi["C"] * pi["T"] / piY
+        k3 = 2 * (piR * piY - pi["A"] * pi["G"] * piY / piR - pi["C"] * pi["T"] * piR / piY)
+        want = -k1 * math.log(1 - P1 / k1 - Q / (2 * piR)) - k2 * math.log(1 - P2 / k2 - Q / (2 * piY)) - k3 * math.log(1 - Q / (2 * piR * piY))
+        return {"failed": not (got == got) or abs(got - want) > 1e-9, "witness": {"moltype": mt, "a": s1, "b": s2},
+                "description": f"TN93 ({mt}) of two 49-column sequences: {got!r}, the formula gives {want!r}"}
+    return rep
+
+
 def run(chk):
     chk.function(FD, "_hamming", "P")
     chk.function(FD, "_jc69_from_matrix", "P")
@@ -260,6 +402,7 @@ def run(chk):
     if not only or "proof" in only:
         chk.guard(run_formulas, fallback=[_replay_formula('_hamming'), _replay_formula('_jc69_from_matrix')])
         chk.guard(run_fill, fallback=[_replay_fill])
+        chk.guard(run_tn93, fallback=[_replay_tn93("dna"), _replay_tn93("rna")])
         chk.discharge()
     chk.assume("float64 treated as the reals; log uninterpreted; numpy sum/diag on the fixed 4x4 matrix unrolled exactly")
     chk.assume("@njit kernel verified as its undecorated Python body (numba nopython == CPython on these values)")
